@@ -70,16 +70,16 @@ func rampAlphabet(n int) []SeqOp {
 
 func c02Specs(quick bool) []*SeqSpec {
 	cfg := hapi.Config{FastKeys: 1, Concurrent: 1}
-	d := 4
+	d := 5
 	if !quick {
-		d = 5
+		d = 6
 	}
 	specs := []*SeqSpec{{Name: "ownership", Cfg: cfg, Alphabet: c02Alphabet(quick), Depth: d, MaxStates: 400000}}
 	ramps := []int{5, 6, 7}
-	rd := 3
+	rd := 4
 	if !quick {
 		ramps = []int{5, 6, 7, 127, 128, 129, 130}
-		rd = 4
+		rd = 5
 	}
 	for _, n := range ramps {
 		specs = append(specs, &SeqSpec{Name: fmt.Sprintf("ramp-%d-holders", n), Cfg: cfg, Ramp: rampHolders(n), Alphabet: rampAlphabet(n), Depth: rd})
